@@ -114,6 +114,21 @@ def cases(tier, seed):
                        'nmax': 48},
                 'n_tuples': int(r.choice([16, 24, 40])),
                 'seed': int(r.randint(1000))})
+  # axis-aligned designs: every pair differs in a single coordinate and the
+  # prior is diagonal, so the matrix handed to the solver is exactly diagonal
+  # (one-factor-at-a-time experiments, grid data); penalties that are not
+  # small against its entries
+  for i in range(12 if q else 300):
+    r = rng_for('c13-axis', seed, i)
+    out.append({'est': 'SDML', 'fail': False, 'axis': True,
+                'params': {'prior': ['identity', '@diag'][i % 2],
+                           'sparsity_param': [0.1, 0.5, 1.0, 2.0][(i // 2) % 4]},
+                'frac': float(r.uniform(0.2, 1.0)),
+                'ds': {'seed': int(r.randint(2**31 - 1)),
+                       'd': int(r.randint(2, 6)), 'classes': 2,
+                       'variant': ['plain', 'int'][i % 3 == 2], 'nmax': 48},
+                'n_tuples': int(r.choice([1, 2, 4, 8, 16])),
+                'seed': int(r.randint(1000))})
   return out
 
 
@@ -184,6 +199,10 @@ def run_case(spec, j):
   ds = common.dataset(spec['ds'])
   X = np.asarray(ds['X'], dtype=float)
   d = ds['d']
+  if spec.get('axis') and spec['params'].get('prior') == '@diag':
+    rd = rng_for('c13-diag', spec['ds']['seed'])
+    spec = dict(spec, params=dict(
+        spec['params'], prior=np.diag(np.exp(rd.uniform(-1.0, 1.0, size=d)))))
   f = common.build(spec, ds, use_fast=False, sdml_frac=0.5)
   p = f.meta['params']
   seed = p['random_state']
@@ -216,6 +235,20 @@ def run_case(spec, j):
       if not (idx == jn).any() and idx[-1 - t_, 1] != i0:
         idx[-1 - t_, 0] = jn
     fit_args = (X[idx],) + tuple(f.args[1:])
+  if spec.get('axis'):
+    # second member of every pair = first member moved along one axis
+    ra = rng_for('c13-axis-pairs', spec['ds']['seed'], spec['seed'])
+    first = X[idx[:, 0]]
+    second = first.copy()
+    ax = ra.randint(0, d, size=len(idx))
+    step = np.round(ra.uniform(0.5, 2.0, size=len(idx)) * 4) / 4 * \
+        ra.choice([-1.0, 1.0], size=len(idx))
+    second[np.arange(len(idx)), ax] += step
+    X = np.vstack([first, second])
+    idx = np.column_stack([np.arange(len(first)),
+                           len(first) + np.arange(len(first))])
+    fit_args = (X[idx],) + tuple(f.args[1:])
+    j.count('axis-aligned-designs')
   V = X[idx[:, 0]] - X[idx[:, 1]]
   pts = np.unique(X[idx].reshape(-1, d), axis=0)
   M0 = E.harness_prior(p['prior'], pts, d, seed)
